@@ -129,6 +129,9 @@ func Run(o Opts) (Result, error) {
 	if o.Xss != "" {
 		jto += " -Xss" + o.Xss
 	}
+	// TLC creates an (empty) tlc-<n> directory under java.io.tmpdir on every start: keep it inside
+	// the run's scratch directory, which is removed afterwards, instead of littering /tmp
+	jto += " -Djava.io.tmpdir=" + dir
 	cmd.Env = append(os.Environ(), "JAVA_TOOL_OPTIONS="+strings.TrimSpace(jto))
 	var out bytes.Buffer
 	cmd.Stdout = &out
